@@ -175,6 +175,17 @@ def verify(contract, repo, tier="quick"):
     ctx = Ctx(repo)
     res = dict(contract=contract.id, fn=contract.fn, props=list(contract.props), fragment=contract.fragment, cases=[],
                obligations=[], out_of_reach=None, info=None, inlined=[], error=None, n_paths=0)
+    if hasattr(contract, "custom"):
+        try:
+            func = contract.func(ctx)
+            node, info = frontend.load_function(repo, func)
+            res["info"] = info
+            res["obligations"] = contract.custom(ctx, tier)
+            res["summary"] = getattr(contract, "analysis_summary", None)
+        except Exception as e:
+            res["error"] = "custom contract failed: %s\n%s" % (e, traceback.format_exc())
+        res["seconds"] = round(time.time() - t_start, 3)
+        return res
     try:
         func = contract.func(ctx)
         node, info = frontend.load_function(repo, func)
